@@ -154,60 +154,7 @@ def check_config(ctx, F, tag):
     ctx.floor("tail-triggers" + tag, 7)
 
     # ---------------- R2 mask before store
-    wb = F.body("bits::write_int")
-    pv = ("param", 2, wb.local_name(3))
-    masked = None
-    for bi, si, st in wb.stmts():
-        if st["s"] == "assign" and st["rv"]["r"] == "bin" and st["rv"]["op"] == "BitAnd":
-            t = wb.term_of_rvalue(st["rv"])
-            if m(Bin("BitAnd", Param(2), Call("bits::low_set", Param(3))), t):
-                masked = t
-
-    def strip_masked(t):
-        if t == masked:
-            return ("MASKED",)
-        if isinstance(t, tuple) and t and isinstance(t[0], str):
-            if t[0] == "call":
-                return (t[0], t[1], tuple(strip_masked(x) for x in t[2])) + t[3:]
-            return tuple(strip_masked(x) if isinstance(x, tuple) else x for x in t)
-        if isinstance(t, tuple):
-            return tuple(strip_masked(x) for x in t)
-        return t
-
-    raw_uses = []
-    stores = []
-    for bi, si, st in wb.stmts():
-        if st["s"] != "assign":
-            continue
-        t = wb.term_of_rvalue(st["rv"])
-        if st["lhs"]["p"] == ["deref"]:
-            stores.append((bi, st, t))
-            if any(x[:2] == ("param", 2) for x in subterms(strip_masked(t))):
-                raw_uses.append("store at %s" % loc(st["sp"]))
-    for bi, t in wb.calls():
-        for a in t["args"]:
-            if any(x[:2] == ("param", 2) for x in subterms(strip_masked(wb.term_of_operand(a)))):
-                raw_uses.append("call %s" % callee_name(t))
-    ctx.ob("C05.R2.value-masked-before-store", "bits::write_int" + tag, loc(wb.raw["span"]), masked is not None and not raw_uses and len(stores) >= 2, "dataflow",
-           "value reaches stores/calls only as value & low_set(width): unmasked uses %s; %d stores" % (raw_uses, len(stores)))
-    ors = [(bi, st, t) for bi, st, t in stores if t[0] == "bin" and t[1] == "BitOr"]
-    ands = [(bi, st, t) for bi, st, t in stores if t[0] == "bin" and t[1] == "BitAnd"]
-    others = [(bi, st, t) for bi, st, t in stores if not (t[0] == "bin" and t[1] in ("BitOr", "BitAnd"))]
-    ctx.count("write_int-stores" + tag, len(stores))
-
-    def word_index(st):
-        t = wb.term_of_local(st["lhs"]["l"])
-        t = core(t)
-        return t[2][1] if t[0] == "call" and t[1].endswith("::index_mut") else t
-
-    for k, (bi, st, t) in enumerate(ors):
-        idx = word_index(st)
-        cleared = [a for a in ands if word_index(a[1]) == idx and (wb.dominates(a[0], bi)) and
-                   not any(x[:2] == ("param", 2) for x in subterms(a[2][3]))]
-        ctx.ob("C05.R2.field-cleared-before-or", "bits::write_int|or#%d%s" % (k, tag), loc(st["sp"]), len(cleared) >= 1, "dominance",
-               "or-store into word [%s] is dominated by an and-store (clear with a value-independent mask) of the same word: %s" % (tstr(idx), len(cleared) >= 1))
-    ctx.ob("C05.R2.only-and-or-stores", "bits::write_int" + tag, loc(wb.raw["span"]), not others and len(ors) >= 2, "term-shape", "stores other than &= / |=: %d" % len(others), nontrivial=False)
-    ctx.floor("write_int-stores" + tag, 6)
+    check_write_int(ctx, F, tag, prefix="C05.R2")
     # push_bit ors the bit at split_offset(len) and new words are pushed as zero
     for fn in ("<raw_vector::RawVector as raw_vector::PushRaw>::push_bit", "<raw_vector::RawVector as raw_vector::PushRaw>::push_int"):
         pb = F.body(fn)
@@ -264,3 +211,61 @@ def check_config(ctx, F, tag):
     for adt_ in (RV, IV):
         ok = F.derives(adt_, "std::cmp::PartialEq") and F.derives(adt_, "std::cmp::Eq") and not F.manual_impl(adt_, "std::cmp::PartialEq")
         ctx.ob("C05.R4.derived-equality", adt_ + tag, loc(F.adt(adt_)["span"]), ok, "item-structure", "%s derives PartialEq+Eq and has no manual impl: %s" % (adt_, ok), nontrivial=False)
+
+
+def check_write_int(ctx, F, tag, prefix):
+    """write_int: the value reaches stores only masked; every or-store is dominated by a clearing and-store of the same word."""
+    wb = F.body("bits::write_int")
+    pv = ("param", 2, wb.local_name(3))
+    masked = None
+    for bi, si, st in wb.stmts():
+        if st["s"] == "assign" and st["rv"]["r"] == "bin" and st["rv"]["op"] == "BitAnd":
+            t = wb.term_of_rvalue(st["rv"])
+            if m(Bin("BitAnd", Param(2), Call("bits::low_set", Param(3))), t):
+                masked = t
+
+    def strip_masked(t):
+        if t == masked:
+            return ("MASKED",)
+        if isinstance(t, tuple) and t and isinstance(t[0], str):
+            if t[0] == "call":
+                return (t[0], t[1], tuple(strip_masked(x) for x in t[2])) + t[3:]
+            return tuple(strip_masked(x) if isinstance(x, tuple) else x for x in t)
+        if isinstance(t, tuple):
+            return tuple(strip_masked(x) for x in t)
+        return t
+
+    raw_uses = []
+    stores = []
+    for bi, si, st in wb.stmts():
+        if st["s"] != "assign":
+            continue
+        t = wb.term_of_rvalue(st["rv"])
+        if st["lhs"]["p"] == ["deref"]:
+            stores.append((bi, st, t))
+            if any(x[:2] == ("param", 2) for x in subterms(strip_masked(t))):
+                raw_uses.append("store at %s" % loc(st["sp"]))
+    for bi, t in wb.calls():
+        for a in t["args"]:
+            if any(x[:2] == ("param", 2) for x in subterms(strip_masked(wb.term_of_operand(a)))):
+                raw_uses.append("call %s" % callee_name(t))
+    ctx.ob(prefix + ".value-masked-before-store", "bits::write_int" + tag, loc(wb.raw["span"]), masked is not None and not raw_uses and len(stores) >= 2, "dataflow",
+           "value reaches stores/calls only as value & low_set(width): unmasked uses %s; %d stores" % (raw_uses, len(stores)))
+    ors = [(bi, st, t) for bi, st, t in stores if t[0] == "bin" and t[1] == "BitOr"]
+    ands = [(bi, st, t) for bi, st, t in stores if t[0] == "bin" and t[1] == "BitAnd"]
+    others = [(bi, st, t) for bi, st, t in stores if not (t[0] == "bin" and t[1] in ("BitOr", "BitAnd"))]
+    ctx.count("write_int-stores" + tag, len(stores))
+
+    def word_index(st):
+        t = wb.term_of_local(st["lhs"]["l"])
+        t = core(t)
+        return t[2][1] if t[0] == "call" and t[1].endswith("::index_mut") else t
+
+    for k, (bi, st, t) in enumerate(ors):
+        idx = word_index(st)
+        cleared = [a for a in ands if word_index(a[1]) == idx and (wb.dominates(a[0], bi)) and
+                   not any(x[:2] == ("param", 2) for x in subterms(a[2][3]))]
+        ctx.ob(prefix + ".field-cleared-before-or", "bits::write_int|or#%d%s" % (k, tag), loc(st["sp"]), len(cleared) >= 1, "dominance",
+               "or-store into word [%s] is dominated by an and-store (clear with a value-independent mask) of the same word: %s" % (tstr(idx), len(cleared) >= 1))
+    ctx.ob(prefix + ".only-and-or-stores", "bits::write_int" + tag, loc(wb.raw["span"]), not others and len(ors) >= 2, "term-shape", "stores other than &= / |=: %d" % len(others), nontrivial=False)
+    ctx.floor("write_int-stores" + tag, 6)
